@@ -139,8 +139,10 @@ public:
 
   void append(const byte* data, usize size)
   {
+    bool own = data >= bufferStart && data < bufferEnd; // data is part of this buffer: resize may move or reallocate it
+    usize offset = own ? data - bufferStart : 0;
     resize(bufferEnd - bufferStart + size);
-    Memory::copy(bufferEnd - size, data, size);
+    Memory::copy(bufferEnd - size, own ? bufferStart + offset : data, size);
     if(buffer)
       *bufferEnd = 0;
   }
